@@ -176,7 +176,10 @@ pub fn execute(prop: &'static dyn Property, spec: RunSpec, replay: Option<Vec<u3
     let mut harness_error = None;
     if panicked {
         let (loc, msg) = PANIC_INFO.lock().unwrap().take().unwrap_or_default();
-        if loc.contains("/verif/") || loc.is_empty() {
+        if msg.starts_with("SIM-ABORT") {
+            // A seam aborted the run on purpose after recording its violation (e.g. a busy loop
+            // that would otherwise spin forever on the simulator thread).
+        } else if loc.contains("/verif/") || loc.is_empty() {
             harness_error = Some(format!("panic in harness at {loc}: {msg}"));
         } else {
             let sig = format!("{}|panic|{}", c.property, panic_site(&loc));
